@@ -298,10 +298,72 @@ def gen_cases(tier):
     return cases
 
 
+# ---------------------------------------------------------------------------
+# segments that are objects (only spellable with Path(...) / T[...]): they reach the mapping as they are
+
+import collections
+
+Cell = collections.namedtuple('Cell', 'row col')
+Cell1 = collections.namedtuple('Cell1', 'row')
+
+
+class TupleKey(tuple):
+    pass
+
+
+class FrozenKey(frozenset):
+    pass
+
+
+OBJ_KEYS = {
+    # kind -> (key present in the mapping, an absent key of the same kind)
+    'namedtuple': (Cell(1, 2), Cell(2, 1)), 'namedtuple-1-field': (Cell1(1), Cell1(2)), 'tuple-subclass': (TupleKey((1, 2)), TupleKey((3,))),
+    'frozenset-subclass': (FrozenKey([1]), FrozenKey([2])), 'tuple': ((1, 2), (2, 1)), 'frozenset': (frozenset([1]), frozenset([9])),
+    'int': (7, 8), 'float': (2.5, 3.5), 'bool': (True, False), 'none': (None, Ellipsis), 'bytes': (b'k', b'j'), 'dotted-str': ('a.b', 'a.c'),
+    'empty-tuple': ((), (0,)), 'star-str': ('*', '**'),
+}
+
+
+def run_object_keys(case):
+    k1, k2, miss_at, spelling = case
+    leaf = object()
+    target = {OBJ_KEYS[k1][0]: {OBJ_KEYS[k2][0]: leaf, 'other': 1}, 'other': 2}
+    segs = [OBJ_KEYS[k1][1 if miss_at == 0 else 0], OBJ_KEYS[k2][1 if miss_at == 1 else 0]]
+    if spelling == 'path':
+        spec = Path(*segs)
+    elif spelling == 'T':
+        spec = T[segs[0]][segs[1]]
+    elif spelling == 'path-of-T':
+        spec = Path(T[segs[0]], segs[1])
+    else:
+        spec = Path(segs[0], T[segs[1]])
+    where = {'keys': [repr(x) for x in segs], 'spelling': spelling, 'spec': repr(spec)}
+    try:
+        got = ('ok', glom(target, spec))
+    except Exception as e:
+        got = ('exc', e)
+    if miss_at is None:
+        if got[0] != 'ok' or got[1] is not leaf:
+            return R({'expected': 'the object stored under these keys', 'observed': repr(got), **where}, 'ok')
+        return R(None, 'ok', nontrivial=True, steps=2, tags={k1, k2, spelling})
+    e = got[1]
+    if got[0] == 'ok' or not isinstance(e, PathAccessError) or e.part_idx != miss_at or not isinstance(e.exc, KeyError) or not isinstance(e, KeyError):
+        return R({'expected': 'PathAccessError part %d carrying KeyError' % miss_at, 'observed': repr(got), **where}, 'miss')
+    return R(None, 'miss@%d' % miss_at, nontrivial=True, steps=2, tags={k1, k2, spelling})
+
+
+def gen_object_keys(tier):
+    return [[a, b, m, sp] for a in OBJ_KEYS for b in OBJ_KEYS for m in (None, 0, 1) for sp in ('path', 'T', 'path-of-T', 'path-then-T')]
+
+
 def subs(tier, only=None):
     from ..engine import fast_tracebacks
     fast_tracebacks()
-    return [Sub('path-access', gen_cases(tier), run_case,
+    return [Sub('object-keys', gen_object_keys(tier), run_object_keys,
+                rule='case = (kind of key at level 1, at level 2, position of a missing key or none, spelling Path(...) / T[...] / mixed): mapping keys that '
+                     'are objects (namedtuples, tuple / frozenset subclasses, numbers, None, bytes, strings containing dots or stars)',
+                min_nontrivial=2000, min_outcomes=3, required_tags=['namedtuple', 'tuple-subclass', 'dotted-str', 'path', 'T']),
+            Sub('path-access', gen_cases(tier), run_case,
                 rule='case = (spine of container kinds, leaf, shared?, segment list deviating from the valid path in <=1 '
                      'position + tail); each executed in every spelling on plain and logging targets; non-trivial = non-empty path',
                 min_nontrivial=1000, min_outcomes=6,
